@@ -106,8 +106,9 @@ fn bexpr_inner(v: &Value, vars: &[Var], lits: &mut usize) -> Expr {
         "xor" => { let (l, r) = (o(1), o(2)); logic!(l, r, ^) }
         "band" => { let (l, r) = (o(1), o(2)); logic!(l, r, &) }
         "bor" => { let (l, r) = (o(1), o(2)); logic!(l, r, |) }
-        "implies" => { let (l, r) = (o(1), o(2)); l.ex().implies(r.ex()) }
-        "iff" => { let (l, r) = (o(1), o(2)); l.ex().iff(r.ex()) }
+        // the methods exist on Var handles and on expressions: each is its own piece of code
+        "implies" => { let (l, r) = (o(1), o(2)); match l { Opnd::V(a) => a.implies(r.ex()), l => l.ex().implies(r.ex()) } }
+        "iff" => { let (l, r) = (o(1), o(2)); match l { Opnd::V(a) => a.iff(r.ex()), l => l.ex().iff(r.ex()) } }
         "+" => { let (l, r) = (o(1), o(2)); arith!(l, r, +) }
         "-" => { let (l, r) = (o(1), o(2)); arith!(l, r, -) }
         "*" => { let (l, r) = (o(1), o(2)); arith!(l, r, *) }
